@@ -6,6 +6,14 @@ props = [json.loads(l) for l in open(os.path.join(ROOT, "properties.jsonl"))]
 NOTE = ("Trusted: Coq 8.16.1 kernel; no axioms; hand-written executable model tied to the code by translator-generated tables (re-read from /repo every run) "
         "and a byte-exact differential run of the extracted model (ExtrOcamlBasic only) against the implementation; generators/oracles in Python; see DESIGN.md section 7.")
 BUILT = {
+ "C01": "text_run_capture, escape_tokens, comment_skipped (any body without *@, trailing stars included), text_node_is_source_slice (EVERY input), leading_trim_only, and text_literal_denotes_text (both literal arms lex back to the text under a model of rustc's literal lexer, for all valid UTF-8) proved; legacy literal/comment refuted; generated code compared with the model on texts over all 128 ASCII code points and multi-byte scalars at every nesting position, compiled with rustc and run",
+ "C03": "block_ends_at_its_brace, nothing_swallowed_after_if (else / else-if chains, by induction on the recursion) and _for (EVERY input), emit_structure (else-if flattening), render_control_flow and exec_renders over a big-step semantics of the emitted statements with an oracle for the Rust fragments; nestings to depth 4 compiled with rustc and rendered on argument sets driving every branch",
+ "C04": "call_form, block_argument_emission, content_param_rewrite, exec_call, exec_block_in_caller_env and forwarded_block_still_runs_in_the_original_env (closures capture the caller's environment and blocks) proved over the statement semantics; call graphs across root/child/grandchild/sibling modules with 0-3 Content parameters and forwarding intermediates compiled with rustc and rendered",
+ "C05": "expression_sound_and_maximal (EVERY input: the fragment is a non-empty valid-UTF-8 prefix and no postfix form parses where it ends), paren_expression, division_is_transparent, fragment_verbatim_once proved; legacy division refuted; grammar-generated expressions x follower classes compared with the model, compiled and evaluated (single evaluation checked with a counter), plus a malformed stream",
+ "C11": "compile_never_panics (every Panic outcome of the model -- unwrap, index, subtraction, unreachable!() -- is unreachable, via a predicate closed under every nom combinator), errors_are_inside_input, reject_has_wellformed_diagnostics (at least one diagnostic; line number, caret column and echoed line characterised) proved for EVERY byte string; legacy panics refuted; 3e4 exhaustive/fuzzed/mutated inputs compared outcome-for-outcome (generated code or full diagnostic text) with the model",
+ "C13": "signature_shape, param_verbatim_or_content (exactly `Content` after trimming, split at the first colon), formal_argument_is_source_slice, use_line_is_source_slice proved; legacy substring rewrite refuted; declarations over 24 type shapes called from a rustc-compiled program with values of the declared types",
+ "C14": "exec_prefix (every statement list, oracle and sink schedule: accepted bytes are a prefix of the full rendering, all of it on Ok), exec_partial_interrupt_invariant, exec_error_propagates, sink_error_is_returned, question_marks_present proved; compiled templates run against sinks failing at every byte offset with one-byte / short / whole accepts and Interrupted sprinkled in",
+ "C15": "spacelike_skips (any run of whitespace and closed comments, multi-line and star-ending bodies included), layout_irrelevant_at_spacelike / _after (two layouts at a spacelike position give the same parse), let_condition_respaced proved; metamorphic pairs canonical vs 4 perturbed layouts must give byte-identical code, also compared with the model",
  "C02": "to_html_prefix / to_html_no_fault / decode_escape / escape_no_special / escape_passthrough proved for every chunking of the Display text and every sink schedule over the Gallina model of utils.rs, whose byte tables are regenerated from the source on every run; model tied to the library by a 3e5-case differential run",
  "C06": "html_raw_prefix / to_buffer_eq_to_html / buffer_not_reescaped / buffer_eq_is_equality proved for every value, chunking and schedule; same model and correspondence as C02 with the Html / to_buffer wrappers",
  "C07": "url_name_shape, url_name_history_independent, slug_is_md5_prefix (8 url-safe characters), b64url_6_injective, md5_pad_injective and the RFC 1321 vectors proved over the model's own MD5/base64/StaticFiles state machine; name_changes_partial states exactly what can be proved about 'any byte changes the name' (48-bit prefix equality); correspondence on add_file/add_file_data histories plus hashlib oracle",
